@@ -19,6 +19,10 @@ SPEC = {
         {"name": "relay-lock", "pkg": P, "kind": "rapid", "run": "^TestVerifC19RelayLockstep$",
          "quick": {"checks": 2000, "shards": 1, "timeout": 240},
          "thorough": {"checks": 12000, "shards": 16, "timeout": 900}},
+        # side b obtained through obfs4proxy's own proxy dialers (HTTP CONNECT, SOCKS4a, SOCKS5) against a fake proxy
+        {"name": "relay-proxied", "pkg": P, "kind": "rapid", "run": "^TestVerifC19RelayProxied$",
+         "quick": {"checks": 600, "shards": 1, "timeout": 240},
+         "thorough": {"checks": 6000, "shards": 8, "timeout": 900}},
         {"name": "relay-free", "pkg": P, "kind": "rapid", "run": "^TestVerifC19RelayFree$",
          "quick": {"checks": 300, "shards": 1, "timeout": 240, "race": True},
          "thorough": {"checks": 6000, "shards": 8, "timeout": 900, "race": True}},
